@@ -33,7 +33,7 @@ TECHNIQUE = "runtime reference-model monitor + linearizability check of concurre
 SHARDS = {"quick": 8, "thorough": 16}
 TIMEOUT = {"quick": 300, "thorough": 3000}
 FLOORS = {"oracle.sequential_requests": 3000, "oracle.shipped_pairs": 60, "oracle.concurrent_rounds": 30,
-          "concurrent.distinct_signatures": 30, "sequential.nested_transitions": 50}
+          "concurrent.distinct_signatures": 30, "sequential.nested_transitions": 50, "oracle.concurrent_rounds_shipped": 30}
 
 
 class Spec:
@@ -530,9 +530,102 @@ def _concurrent(ctx, rounds):
         inj.uninstall()
 
 
+def _concurrent_shipped(ctx, rounds):
+    """Concurrent triggers on the three shipped machines (timer thread vs dispatcher thread vs operator)."""
+    import secsgem.common.state_machine as SM
+
+    rng = ctx.rng
+    inj = sched.YieldInjector(["secsgem/common/state_machine.py", "secsgem/common/events.py", "secsgem/gem/control_state_machine.py",
+                               "secsgem/gem/communication_state_machine.py", "secsgem/hsms/connection_state_machine.py"])
+    inj.install()
+    factories = _shipped_factories()
+    # reachable states and paths, per machine (model only)
+    table = []
+    for label, spec, factory in factories:
+        mk = ControlModel if label.startswith("control") else Model
+        paths = {spec.initial: []}
+        frontier = [spec.initial]
+        while frontier:
+            nxt = []
+            for st in frontier:
+                for t in spec.transitions:
+                    mdl = mk(copy.deepcopy(spec))
+                    for step in paths[st]:
+                        mdl.request(step)
+                    out, _ = mdl.request(t)
+                    if out == "ok" and mdl.current not in paths:
+                        paths[mdl.current] = paths[st] + [t]
+                        nxt.append(mdl.current)
+            frontier = nxt
+        for st, path in paths.items():
+            allowed = [t for t, (srcs, _) in spec.transitions.items() if st in srcs]
+            if len(allowed) >= 2:
+                table.append((label, spec, factory, mk, st, path, allowed))
+    try:
+        for r in range(rounds):
+            label, spec, factory, mk, st, path, allowed = rng.choice(table)
+            real = factory()
+            ship = Shipped(real, spec)
+            for step in path:
+                ship.fire(step)
+            k = rng.choice([2, 2, 3])
+            reqs = [rng.choice(allowed) for _ in range(k)]
+            results = [None] * k
+            barrier = threading.Barrier(k)
+
+            def worker(i):
+                stuck.register_harness_thread()
+                inj.add_participant()
+                barrier.wait()
+                try:
+                    ship.fire(reqs[i])
+                    results[i] = "ok"
+                except SM.WrongSourceStateError:
+                    results[i] = "wrong"
+                except SM.UnknownTransitionError:
+                    results[i] = "unknown"
+                except Exception as exc:
+                    results[i] = f"raised:{type(exc).__name__}"
+            seed = rng.getrandbits(32)
+            inj.begin(seed, p=rng.choice([0.15, 0.3, 0.5]), participants=set())
+            ths = [threading.Thread(target=worker, args=(i,), daemon=True) for i in range(k)]
+            for t in ths:
+                t.start()
+            for t in ths:
+                t.join(20)
+            sig, yields, _ = inj.end()
+            _cancel_timers(real)
+            if any(t.is_alive() for t in ths):
+                ctx.unsure("concurrent shipped-machine round did not finish in 20 s")
+                continue
+            ctx.count("oracle.concurrent_rounds_shipped")
+            ctx.case(("conc-shipped", label, st, tuple(reqs), sig), nontrivial=True)
+            cur, active = _observe(real, ship.objs)
+            explained = False
+            for perm in itertools.permutations(range(k)):
+                mdl = mk(copy.deepcopy(spec))
+                for step in path:
+                    mdl.request(step)
+                outs = [None] * k
+                for i in perm:
+                    outs[i], _ = mdl.request(reqs[i])
+                if outs == results and mdl.current == cur:
+                    explained = True
+                    break
+            wit = {"machine": label, "start": st, "requests": reqs, "results": results, "final_current": cur, "active": active,
+                   "schedule_seed": seed}
+            if not explained:
+                ctx.violation(f"concurrent-history-not-linearizable:{label.split('[')[0]}", wit)
+            elif active != sorted(spec.anc(cur)):
+                ctx.violation(f"concurrent-active-set-inconsistent:{label.split('[')[0]}", wit)
+    finally:
+        inj.uninstall()
+
+
 def run(ctx):
     from lib import vtime
     vtime.install()
     _sequential_random(ctx, 150 if ctx.quick else 4000, 25)
     _sequential_shipped(ctx)
     _concurrent(ctx, 40 if ctx.quick else 1500)
+    _concurrent_shipped(ctx, 25 if ctx.quick else 800)
